@@ -165,6 +165,13 @@ def run_confidence(case):
                 res["status"] = "refused"
                 res["note"] = c.info["msg"]
                 return res
+            if c.info.get("file") == "peps.py":
+                # the PEP estimators' own failures on small / heavily tied samples are C06's business (known finding
+                # there); without result files there is nothing to judge about the competition
+                res["status"] = "refused"
+                res["note"] = "PEP estimator failed: " + c.sig
+                res.count("pep_estimation_failed")
+                return res
             res.violate("crash", c.sig, msg=c.info["msg"], **extra)
             return res
         files = pipeline.read_results(d / "out")
@@ -221,6 +228,11 @@ def run_rollup_tool(case):
         res.count("rollup_calls")
         extra = dict(nsets=case["nsets"], levels=case["levels"], ties=case["ties"], base=base)
         if not c.ok:
+            if c.info.get("file") == "peps.py":
+                res["status"] = "refused"
+                res["note"] = "PEP estimator failed: " + c.sig
+                res.count("pep_estimation_failed")
+                return res
             res.violate("crash", c.sig, msg=c.info["msg"], **extra)
             return res
         out = {}
